@@ -7,7 +7,7 @@ import subprocess
 from . import refinterp as I
 from . import refnum as R
 from . import refparse as P
-from .common import HYEONG, WORK, MachineryError, Stats, Violation, collect, finish, hx, pmap, shim
+from .common import HYEONG, WORK, MachineryError, Stats, Violation, collect, finish, hx, pmap, shim, child_setup
 from .eng_compile import emit, rustc
 
 U = ['\x00', 'a', '\x7f', '\x80', '\u07ff', '\u0800', '\ud7ff', '\ue000', '\uffff', '\U00010000', '\U0010ffff', '\n', '\r']
@@ -77,7 +77,7 @@ def run_cfg(d, name, cfg, data, timeout=120):
     else:
         args = [os.path.join(d, '%s_%d' % (name, cfg[1]))]
     try:
-        p = subprocess.run(args, input=data, stdout=subprocess.PIPE, stderr=subprocess.PIPE, env=env, timeout=timeout)
+        p = subprocess.run(preexec_fn=child_setup, args=args, input=data, stdout=subprocess.PIPE, stderr=subprocess.PIPE, env=env, timeout=timeout)
     except subprocess.TimeoutExpired:
         return 'timeout', b'', b''
     out = p.stdout
